@@ -25,6 +25,60 @@ PV = "stix2.pattern_visitor"
 PAT = "stix2.patterns"
 
 
+# flattening sites that need no operator test, with the reason (the structural part of the reason is checked by the rule)
+FLATTEN_OK = {
+    "STIXPatternVisitorForSTIX2.visitComparisonExpressionAnd":
+        "AND is the tightest-binding comparison operator: the left child of comparisonExpressionAnd is an AND chain or a single "
+        "propTest, and a parenthesised group arrives wrapped (visitPropTestParen -> ParentheticalExpression), so a bare "
+        "_BooleanExpression on the left can only be the AND chain itself",
+}
+
+
+def rule_flattening_keeps_operator(ctx):
+    """The grammar is left-recursive: `x OP y OP z` arrives as ((x OP y) OP z) and the visitor may keep ONE operand list per
+    chain by appending z to the node built for (x OP y).  That is meaning-preserving only when that node carries the SAME
+    operator.  At every level but the tightest-binding one the left child can be a chain of a tighter operator
+    (`[a] AND [b] OR [c]`: the left child of OR is the AND node), so the append must sit under an operator-identity test;
+    otherwise the pattern is silently regrouped ([a] AND [b] AND [c])."""
+    run = ctx.run
+    prog = ctx.prog
+    R = "C10.operator-table"
+    n = 0
+    for fi in sorted(prog.functions.values(), key=lambda f: f.id):
+        if fi.module.name != PV:
+            continue
+        for x in body_walk(fi.node):
+            if not (isinstance(x, ast.Call) and isinstance(x.func, ast.Attribute) and x.func.attr in ("append", "extend", "insert")
+                    and isinstance(x.func.value, ast.Attribute) and x.func.value.attr == "operands"):
+                continue
+            n += 1
+            node_txt = norm(x.func.value.value)
+            tests = [norm(t) for t, pol, _ in guard_chain(x) if pol]
+            same_op = any(("same_boolean_operator(" in t) or (node_txt + ".operator ==" in t) or ("== %s.operator" % node_txt in t)
+                          or any(("isinstance(%s, %s" % (node_txt, cn)) in t for cn in (
+                              "AndBooleanExpression", "OrBooleanExpression", "AndObservationExpression", "OrObservationExpression",
+                              "FollowedByObservationExpression")) for t in tests)
+            c = key(fi.module.relpath, fi.qualname, "flattening-keeps-the-operator")
+            if same_op:
+                run.ok(R, c)
+                continue
+            why = FLATTEN_OK.get(fi.qualname)
+            if why:
+                paren = prog.cls(PV + "::STIXPatternVisitorForSTIX2").methods.get("visitPropTestParen")
+                wrapped = paren is not None and any(isinstance(c_, ast.Call) and c_.args and isinstance(c_.args[0], ast.Constant)
+                                                    and c_.args[0].value == "ParentheticalExpression" for c_ in body_walk(paren.node))
+                if wrapped:
+                    run.ok(R, c, why)
+                    continue
+            run.violation(R, c, "an operand is appended to the node built for the left part of the chain without a test that this node "
+                          "carries the same operator: with mixed operators (`[a] AND [b] OR [c]`, `[a] OR [b] FOLLOWEDBY [c]`) the "
+                          "pattern is regrouped under the tighter operator and means something else", file=fi.module.relpath,
+                          line=x.lineno, function=fi.qualname, expected="append only under same_boolean_operator(...) / an operator test",
+                          found=tests)
+    if n < 2:
+        raise AnalysisError("fewer than 2 operand-flattening sites in the pattern visitor (%d): anchors lost" % n)
+
+
 def run(ctx):
     run = ctx.run
     run.explanation = (
@@ -42,6 +96,7 @@ def run(ctx):
     ctx.do(rule_visitor_exhaustive)
     ctx.do(rule_not_aware)
     ctx.do(rule_operator_table)
+    ctx.do(rule_flattening_keeps_operator)
     ctx.do(rule_printer_complete)
     ctx.do(rule_definite_init)
     ctx.do(rule_escape_order)
@@ -49,6 +104,9 @@ def run(ctx):
     ctx.do(rule_token_domain)
     ctx.do(rule_float_literal_form)
     ctx.do(rule_hex_literal_form)
+    # timestamp literals are printed by the library's one timestamp writer
+    from . import C15
+    ctx.do(C15.rule_one_writer_one_reader, rule_id="C10.printer-complete")
     ctx.do(rule_path_step_kinds)
     from .hidden_state import rule_no_hidden_state
     ctx.do(rule_no_hidden_state, "C10.history-independence")
